@@ -238,8 +238,8 @@ func (e *E) size() int {
 
 // Env is the data visible to an expression.
 type Env struct {
-	Vars data.Map // params / lets / loop variables (absent = undefined)
-	IJ   data.Map // nil = no injected data
+	Vars data.Map          // params / lets / loop variables (absent = undefined)
+	IJ   data.Map          // nil = no injected data
 	Loop map[string][2]int // loop variable -> (index, last index)
 }
 
